@@ -36,6 +36,24 @@ func oneRun(o *kit.Out, r *kit.Rand) {
 	profile := r.Intn(3)
 	lg := &evalLog{}
 	base := int64(r.Range(0, 30))
+	// a stall of the ticking goroutine (slow rate function, GC pause, starved process): one
+	// evaluation takes longer than a whole number of intervals plus a fraction
+	stallAt, stallFor := int64(-1), time.Duration(0)
+	if r.Chance(35) {
+		stallAt = r.Range(0, 2)
+		stallFor = time.Duration(r.Range(1, 3))*interval + interval*time.Duration(r.Range(20, 80))/100
+		if dist != "none" {
+			stallFor = time.Duration(r.Range(1, 3))*100*time.Millisecond + time.Duration(r.Range(20, 80))*time.Millisecond
+		}
+		if stallFor > 700*time.Millisecond {
+			stallFor = 700 * time.Millisecond
+		}
+	}
+	stall := func(k int64) {
+		if k == stallAt {
+			time.Sleep(stallFor)
+		}
+	}
 	rateFn := func(time.Time) int {
 		t := mono()
 		lg.mu.Lock()
@@ -52,6 +70,7 @@ func oneRun(o *kit.Out, r *kit.Rand) {
 		lg.times = append(lg.times, t)
 		lg.values = append(lg.values, v)
 		lg.mu.Unlock()
+		stall(k)
 		return int(v)
 	}
 	// the distribution wraps the logged function: the property speaks about the function the
@@ -69,9 +88,11 @@ func oneRun(o *kit.Out, r *kit.Rand) {
 			v := int64(inner(t))
 			tm := mono()
 			lg.mu.Lock()
+			k := int64(len(lg.times))
 			lg.times = append(lg.times, tm)
 			lg.values = append(lg.values, v)
 			lg.mu.Unlock()
+			stall(k)
 			return int(v)
 		}
 	}
@@ -101,12 +122,17 @@ func oneRun(o *kit.Out, r *kit.Rand) {
 			}()
 		}
 	}
-	runFor := time.Duration(r.Range(3, 12)) * tickInterval
+	if stallAt >= 0 {
+		o.Count("stall", "ticking goroutine stalled once")
+	} else {
+		o.Count("stall", "none")
+	}
+	runFor := time.Duration(r.Range(3, 12))*tickInterval + 2*stallFor
 	if runFor < 60*time.Millisecond {
 		runFor = 60 * time.Millisecond
 	}
-	if runFor > 1500*time.Millisecond {
-		runFor = 1500 * time.Millisecond
+	if runFor > 1500*time.Millisecond+2*stallFor {
+		runFor = 1500*time.Millisecond + 2*stallFor
 	}
 	cfg := runkit.Config{Mode: "custom", Scenario: scenario, Ctx: context.Background(),
 		Opts: options.RunOptions{MaxDuration: runFor, Concurrency: 200, IgnoreDropped: true}}
